@@ -544,17 +544,30 @@ PROBE_CP24 = ["case 0 probe cpixel24 tail", "init 65 1 32 24 0 255 255 255 16 8 
               "b 00000001", "b 000000000041000100000010",
               "z 5 1 1 80" + "11223300" * 63 + "112233" + "ff" * 129 + "00" + "00445566", "run"]
 
+# notes/fix_C07_4.diff (raw_buffer sized by the worst case of a valid tile stream): a 1x1 rectangle sent as a palette-RLE
+# tile with a 2-entry palette (8 bytes > 2 x 3)
+PROBE_ZBOUND = ["case 0 probe zrle bound", "init 2 1 32 24 0 255 255 255 16 8 0 32 255 " + ALL_ENCS, "fixed 8191", "fill 5",
+                "b 00000001", "b 000000000001000100000010", "z 5 1 1 8201020304050600", "run"]
+
+
+def probe_zbound(cexe, mexe):
+    script = "\n".join(PROBE_ZBOUND) + "\n"
+    rc1, cout, cerr = vlib.run_driver(cexe, script, timeout=120)
+    rc2, mout, merr = vlib.run_driver([mexe, "dec"], script, timeout=120, unlimited_stack=True)
+    return 4096 if (rc1 == 0 and cout == mout and "end ok" in cout) else 0
+
 
 def probe_fixes(cexe, mexe):
     """does the code under test contain notes/fix_C07_1.diff (2-byte CPIXELs in the 15-bit ZRLE/TRLE instances)?
     yes iff it behaves on the probe exactly like the mirror with fix bit 7 switched on"""
+    zb = probe_zbound(cexe, mexe)
     script = "\n".join(PROBE_CP15) + "\n"
     rc1, cout, cerr = vlib.run_driver(cexe, script, timeout=120)
     rc2, mout, merr = vlib.run_driver([mexe, "dec"], script, timeout=120, unlimited_stack=True)
-    mask = 128 if (rc1 == 0 and cout == mout and "end ok" in cout) else 0
+    mask = zb | (128 if (rc1 == 0 and cout == mout and "end ok" in cout) else 0)
     # notes/fix_C08_7.diff (4 spare bytes behind the ZRLE data): changes the accepted data size by 4 bytes when the
     # scratch area is inherited from an earlier, larger rectangle
-    script = "\n".join(PROBE_CP24) + "\n"
+    script = "\n".join(PROBE_CP24).replace("fixed 383", "fixed %d" % (383 | zb)) + "\n"
     rc1, cout, cerr = vlib.run_driver(cexe, script, timeout=120)
     rc2, mout, merr = vlib.run_driver([mexe, "dec"], script, timeout=120, unlimited_stack=True)
     if rc1 == 0 and cout == mout and "end ok" in cout:
@@ -691,7 +704,7 @@ def features_of(case, msg):
         cause = "cpixel_depth32"             # the client picks the 3-byte CPIXEL instance from the colour masks alone
     elif not (FIXMASK & 2048) and "zrle" in encs and "zlib" in encs:
         cause = "zlib_zrle_shared_stream"    # one inflate stream in the client for two server streams
-    elif "zrle" in encs and zrle_oversize(case):
+    elif not (FIXMASK & 4096) and "zrle" in encs and zrle_oversize(case):
         cause = "zrle_oversize"
     return {"encs": ",".join(encs), "fmt": case["fmt"], "bpp": case["bpp"], "cause": cause, "what": msg[:60]}
 
